@@ -288,18 +288,22 @@ def build_tm(tspec):
 
 
 # ------------------------------------------------------------------------------------------ building a case
+def build_obs(o):
+    fx = fixtures()
+    if o['type'] == 'grid':
+        return fx['GridObs'](o['wn'], o['spectrum'], o['err'])
+    cols = [np.asarray(o['wl'], float), np.asarray(o['spectrum'], float), np.asarray(o['err'], float)]
+    if o.get('widths') is not None:
+        cols.append(np.asarray(o['widths'], float))
+    arr = np.stack(cols, axis=1)
+    return fx['OffsetArrayObs'](arr) if o['type'] == 'array+offset' else fx['ArraySpectrum'](arr)
+
+
 def build_pair(spec):
     """(model, observation) from a spec — called twice per case: once for the optimizer, once for the oracle"""
     fx = fixtures()
     o = spec['obs']
-    if o['type'] == 'grid':
-        obs = fx['GridObs'](o['wn'], o['spectrum'], o['err'])
-    else:
-        cols = [np.asarray(o['wl'], float), np.asarray(o['spectrum'], float), np.asarray(o['err'], float)]
-        if o.get('widths') is not None:
-            cols.append(np.asarray(o['widths'], float))
-        arr = np.stack(cols, axis=1)
-        obs = fx['OffsetArrayObs'](arr) if o['type'] == 'array+offset' else fx['ArraySpectrum'](arr)
+    obs = build_obs(o)
     m = spec['model']
     if m['kind'] == 'poly':
         native = m['native'] if m.get('native') is not None else o['wn']
@@ -330,13 +334,21 @@ def make_prior_obj(p):
 def make_optimizer(spec, model, obs):
     fx = fixtures()
     s = spec['sampler']
+    final_obs = obs
+    if spec.get('prev_obs') is not None:
+        # history: the optimizer is built on ANOTHER observation first and handed the real one with set_observed();
+        # everything that follows must be that of the observation it holds now
+        obs = build_obs(spec['prev_obs'])
     if s == 'nestle':
         opt = fx['N'](observed=obs, model=model, num_live_points=5)
     elif s == 'multinest':
         opt = fx['M'](multi_nest_path=tmpdir(), observed=obs, model=model,
-                      search_multi_modes=bool(spec.get('multimodal', True)))
+                      search_multi_modes=bool(spec.get('search_multi_modes', spec.get('multimodal', True))),
+                      importance_sampling=bool(spec.get('importance', False)))
     else:
         opt = fx['Pc'](polychord_path=tmpdir(), observed=obs, model=model, cluster=bool(spec.get('cluster', True)))
+    if final_obs is not obs:
+        opt.set_observed(final_obs)
     for f in spec['fit']:
         opt.enable_fit(f['name'])
         if f.get('mode') is not None:
@@ -588,6 +600,8 @@ def eval_case(ctx, spec):
     ctx.case(key=(sampler, spec.get('stream'), spec['obs']['type'], kinds, len(order), has_invalid) if any_finite else None,
              sample=dict(sm, cubes=spec['cubes'][:2], loglike=seq_impl[:2]), bucket='stream:%s' % spec.get('stream'))
     ctx.bucket('sampler:' + sampler)
+    if spec.get('prev_obs') is not None:
+        ctx.bucket('history:set_observed-after-another-observation')
     ctx.bucket('nfit:%d' % len(order))
 
 
@@ -664,6 +678,16 @@ def gen_poly_spec(rng, k):
     spectrum = truth + err * rng.normal(size=nobs)
     obs = dict(type=otype, wn=[float(x) for x in wn], wl=[float(x) for x in wl], spectrum=[float(x) for x in spectrum],
                err=[float(x) for x in err], widths=widths)
+    prev_obs = None
+    if k % 5 == 1 and not big:
+        # quota: the optimizer held another observation before (same bin centres: other widths where there are widths,
+        # other values and error bars; or, every second time, a different grid of the same kind)
+        prev_obs = dict(obs, spectrum=[float(x) for x in truth * rng.uniform(0.5, 1.5, size=nobs)],
+                        err=[float(x) for x in err * rng.uniform(0.3, 3.0, size=nobs)])
+        if widths is not None:
+            prev_obs['widths'] = [float(w * f) for w, f in zip(widths, rng.uniform(0.3, 0.9, size=nobs))]
+        elif otype != 'grid' and nobs >= 2 and (k // 5) % 2 == 0:
+            prev_obs['wl'] = [float(x * 1.013) for x in wl]
     # fitted subset
     names = ['c%d' % j for j in range(ncoef)]
     nfit = int(rng.integers(1, ncoef + 1))
@@ -707,7 +731,8 @@ def gen_poly_spec(rng, k):
             c = float(rng.choice(wn))
             nan_idx = [i for i, x in enumerate(np.arange(*native['arange'])) if abs(x - c) < 15.0]
     model = dict(kind='poly', coefs=coefs, modes=modes, native=native, limit=float(limit), nan_idx=nan_idx)
-    spec = dict(stream='poly', sampler=sampler, multimodal=bool(rng.random() < 0.5), model=model, obs=obs, fit=fit)
+    spec = dict(stream='poly', sampler=sampler, multimodal=bool(rng.random() < 0.5), model=model, obs=obs, fit=fit,
+                prev_obs=prev_obs)
     # cube points
     m2, o2 = build_pair(spec)
     order, fs = fit_order(spec, m2, o2)
